@@ -418,7 +418,73 @@ def stalled_peer_case(ctx, case):
     ctx.nt('stalled', repr(case))
 
 
+def recycled_stream_case(ctx, case):
+    """'for every n ... decoding it returns n' - on a stream OBJECT that has
+    been used before: an earlier decode on the same object ended early (the
+    stream's read raised a timeout after some continuation bytes, or ran
+    dry, or the encoding was over-long); the caller gives up on that message
+    and refills the same object with canonical(n) + trailer.  The decode
+    depends on the bytes read now, not on what the object went through.
+    case {type, stale: hex, ending: 'TimeoutError'|'BlockingIOError'|
+          'socket.timeout'|'eof'|'too_long', first_type, n}"""
+    import socket as _socket
+    T = _types()[case['type']][0]
+    F = _types()[case.get('first_type', case['type'])][0]
+    ctx.ev()
+    EXC = {'TimeoutError': TimeoutError, 'BlockingIOError': BlockingIOError,
+           'socket.timeout': _socket.timeout}
+
+    class Reader(object):
+        def __init__(self):
+            self.data, self.pos, self.ending = b'', 0, 'eof'
+
+        def fill(self, data, ending='eof'):
+            self.data, self.pos, self.ending = data, 0, ending
+
+        def read(self, n=None):
+            if self.pos >= len(self.data) and self.ending in EXC:
+                raise EXC[self.ending]('timed out')
+            n = len(self.data) - self.pos if n is None else n
+            out = self.data[self.pos:self.pos + n]
+            self.pos += len(out)
+            return out
+
+        recv = read
+    r = Reader()
+    stale = bytes.fromhex(case['stale'])
+    r.fill(stale, case['ending'])
+    first = None
+    try:
+        first = F.read(r)
+    except Exception as e:
+        first = type(e).__name__
+    want_first = {'eof': 'EOFError', 'too_long': 'ValueError'}.get(
+        case['ending'], EXC.get(case['ending'], Exception).__name__)
+    if case['ending'] == 'socket.timeout':
+        want_first = _socket.timeout.__name__
+    if first != want_first:
+        ctx.fail('recycled', 'D4-first-decode-ending', case, repr(first),
+                 want_first)
+        return
+    enc = wire.varint(case['n'])
+    r.fill(enc + b'\x7f\x80')
+    try:
+        got = T.read(r)
+    except Exception as e:
+        ctx.fail('recycled', 'D5-decode-depends-on-stream-object-history',
+                 case, exc=e)
+        return
+    if got != case['n'] or type(got) is not int or r.pos != len(enc):
+        ctx.fail('recycled', 'D5-decode-depends-on-stream-object-history',
+                 case, (repr(got), r.pos), (case['n'], len(enc)))
+        return
+    ctx.nt('recycled', '%s:%s:%d:%d' % (case['type'], case['ending'],
+                                        len(stale), len(enc)))
+    ctx.label('recycled_after_' + case['ending'])
+
+
 COMPONENTS = {'decode': decode_case, 'encode': encode_case,
+              'recycled': recycled_stream_case,
               'fuzz_decode': fuzz_decode_case,
               'interleaved': interleaved_case,
               'stalled_peer': stalled_peer_case,
@@ -545,6 +611,34 @@ def t_stalled_peer(ctx):
                         'pairs')
 
 
+def t_recycled(ctx):
+    vals = {'VarInt': [0, 1, 127, 128, 300, 16384, 2 ** 31 - 1, 2 ** 31,
+                       2 ** 32 - 1],
+            'VarLong': [0, 300, 2 ** 32, 2 ** 63 - 1, 2 ** 63, 2 ** 64 - 1]}
+    n_ = 0
+    for t in ('VarInt', 'VarLong'):
+        mx = 5 if t == 'VarInt' else 10
+        for ft in ('VarInt', 'VarLong'):
+            fmx = 5 if ft == 'VarInt' else 10
+            for ending in ('TimeoutError', 'BlockingIOError',
+                           'socket.timeout', 'eof', 'too_long'):
+                if ending == 'too_long':
+                    stales = [b'\xff' * (fmx + 1), b'\x80' * (fmx + 3)]
+                else:
+                    stales = [bytes([0x80 | (7 * i + 1) & 0x7f
+                                     for i in range(k)])
+                              for k in range(0, fmx + 1)]
+                for st_ in stales:
+                    for n in vals[t]:
+                        n_ += 1
+                        recycled_stream_case(ctx, {
+                            'type': t, 'first_type': ft,
+                            'stale': st_.hex(), 'ending': ending, 'n': n})
+    ctx.exhaustive_done('%d (earlier ending x consumed continuation bytes x '
+                        'next value) pairs on one recycled stream object'
+                        % n_)
+
+
 def t_interleaved(ctx):
     vals = [0, 1, 127, 128, 300, 16383, 16384, 2 ** 31 - 1]
     specs = [(op, tn, n) for op in ('send', 'read', 'size')
@@ -578,6 +672,7 @@ def tasks(tier):
     q = tier == 'quick'
     tl = [('interleaved', t_interleaved, {}),
           ('stalled_peer', t_stalled_peer, {}),
+          ('recycled', t_recycled, {}),
           ('interpreter_modes', t_interpreter_modes, {})]
     if not q:
         tl.append(('fuzz_empty_corpus', t_fuzz, dict(runs=1500000)))
